@@ -145,8 +145,8 @@ Lemma habs_claim_exit w c : claims_live w = true ->
   habs (claim_exit w c) = live_hs true (map proj (claim_put (s_claims w) (with_state c CDone))) /\ (hside w -> hside (claim_exit w c)).
 Proof. intros H; destruct (live_inv w H) as [[Hp|Hp] Hs]; unfold habs, hside, live_hs, aborted, ending, claim_exit; cbn; rewrite Hp, Hs; cbn; intuition. Qed.
 
-Lemma hook_sim_claimgo cf w p created : hside w ->
-  accept hook_step (habs w) (snd (step cf w (IClaimGo p created))) = Some (habs (fst (step cf w (IClaimGo p created)))) /\ hside (fst (step cf w (IClaimGo p created))).
+Lemma hook_sim_claimgo cf w p a1 a2 : hside w ->
+  accept hook_step (habs w) (snd (step cf w (IClaimGo p a1 a2))) = Some (habs (fst (step cf w (IClaimGo p a1 a2)))) /\ hside (fst (step cf w (IClaimGo p a1 a2))).
 Proof.
   intros Hs. cbn [step]. destruct (claims_live w) eqn:Hl; [|cbn; auto].
   destruct (claim_find (s_claims w) p) as [c|] eqn:Hf; [|cbn; auto].
@@ -158,7 +158,7 @@ Proof.
   - cbn [fst snd]. destruct (habs_claim_exit w c Hl) as [-> Hh]. split; [|auto].
     cbn. rewrite Hsf. cbn. rewrite proj_put. cbn. now rewrite Hp.
   - destruct (log_get (w_log w) p) as [lo hi].
-    destruct (if created then claim_offset cf (cl_pom c) lo hi else None) as [o|].
+    destruct (claim_try cf (cl_pom c) lo hi a1 a2) as [o|].
     + cbn [fst snd]. destruct (habs_set_claims w (claim_put (s_claims w) (started_at c (resolve o lo hi))) Hl) as [-> Hh]. split; [|auto].
       cbn. rewrite Hsf. cbn. rewrite proj_put. cbn. now rewrite Hp, He.
     + cbn [fst snd]. destruct (habs_claim_exit w c Hl) as [-> Hh]. split; [|auto].
